@@ -68,14 +68,14 @@ class Gen:
         if x < 0.45:
             return r.choice(R.SCALARS)
         if x < 0.7 or not elements:
-            return f"{r.randint(-3, 5)}.0".replace("-", "-") if r.random() < 0.8 else f"{r.randint(1, 4)}.0"
+            v = r.randint(-3, 5)
+            return f"({v}.0)" if v < 0 else f"{v}.0"
         return self.element()
 
     def scalar_expr(self, depth=0, intr=None, elements=True):
         r = self.rng
         if depth >= 2 or (depth > 0 and r.random() < 0.35):
-            leaf = self.scalar_leaf(elements)
-            return f"({leaf})" if leaf.startswith("-") else leaf
+            return self.scalar_leaf(elements)
         kind = r.choice(["+", "-", "*", "abs", "sign", "min", "max", intr or "+"])
         a, b = self.scalar_expr(depth + 1, None, elements), self.scalar_expr(depth + 1, None, elements)
         if kind == "abs":
